@@ -13,5 +13,6 @@ INVARIANT Inv_C09_Q_Mass
 INVARIANT Inv_C03_Runs
 INVARIANT Inv_C09_MinFreq
 INVARIANT Inv_RowsKept
+INVARIANT Inv_C11_Quantiles
 PROPERTY Termination
 CHECK_DEADLOCK FALSE
